@@ -43,6 +43,10 @@ def base_case(variant: int, seed: int):
         case["penalties"] = [{"type": "equal_area", "source": "a", "target": "b", "parameter": "pen.1", "source_intervals": [[0.0, 2.0]],
                               "target_intervals": [[0.0, 2.0]], "weight": 0.5}]
         case["parameters"]["pen"] = [1.0]
+    elif variant == 4:  # non-negative rates (optimised as logarithms) and a fixed non-negative scale
+        case["non_negative"] = ["r.1", "r.2", "ds.1"]
+        case["parameters"]["ds"] = [2.0]
+        case["datasets"][0]["scale"] = "ds.1"
     elif variant == 3:  # index dependent, three rates, one fixed
         case["megacomplexes"]["m1"].update(labels=["a", "b", "c"], rates=["r.1", "r.2", "r.3"], index_dependent=True)
         case["parameters"]["r"] = [0.3, 1.1, 2.9]
@@ -104,7 +108,7 @@ def fault_free(case, method, max_nfev):
 
 def enumerate_cases(tier):
     out = []
-    variants = [0, 1, 2, 3]
+    variants = [0, 1, 2, 3, 4]
     import os
 
     off = int(os.environ.get("VERIF_SEED", "1")) % 1000
@@ -121,7 +125,10 @@ def enumerate_cases(tier):
                 n = ff["count"]
                 per_eval = 2 if v in (1, 2) else 1
                 for k in range(1, n + 1):
-                    for kind, cfgs in (("raise_at", [(False, True), (False, False), (True, False), (True, True)]), ("nan_at", [(False, False)]), ("inf_at", [(False, False), (False, True)])):
+                    # Dogbox + non-finite Jacobian can make LAPACK's dgelsd (numpy lstsq inside scipy's dogbox) loop forever:
+                    # not pyglotaran code and not recoverable from Python, so non-finite faults are enumerated for TRF and LM only
+                    nonfinite = [] if method == "Dogbox" else [("nan_at", [(False, False)]), ("inf_at", [(False, False), (False, True)])]
+                    for kind, cfgs in [("raise_at", [(False, True), (False, False), (True, False), (True, True)])] + nonfinite:
                         for verbose, rexc in cfgs:
                             if tier == "quick" and verbose and k % 3 != 1:
                                 continue
@@ -215,7 +222,9 @@ def prop(c):
 def _check_result_from_good_vector(case, c, r, res, capture, suffix):
     from vlib import testmc
 
-    good = [e["rates"] for e in r["log"] if e["ok"]]
+    # "a parameter set that was evaluated without error": one of the evaluations of the optimisation itself, i.e. before the
+    # fault for a one-off fault (the post-fit re-evaluation of whatever was restored does not count as evidence)
+    good = [e["rates"] for e in r["log"] if e["ok"] and (c["kind"] != "raise_at" or e["k"] < c["k"])]
     used = {m for d in case["datasets"] for m in d["megacomplex"]}
     for mname, m in case["megacomplexes"].items():
         if not m.get("fault") or mname not in used:
@@ -259,7 +268,7 @@ def _check_result_from_good_vector(case, c, r, res, capture, suffix):
 def invalid_cases(tier):
     out = []
     for kind in ("missing_data", "unknown_method", "unknown_residual_function", "no_parameters"):
-        for v in (0, 1, 2, 3):
+        for v in (0, 1, 2, 3, 4):
             for rexc in (False, True):
                 out.append({"kind": kind, "variant": v, "raise_exception": rexc})
     return out
@@ -316,8 +325,12 @@ def random_fault_cases():
         scheme = draw(schemes.schemes(allow_full=False, max_datasets=2, labels="neutral"))
         for m in scheme["megacomplexes"].values():
             m["fault"] = True
+        # non-negative parameters are optimised as logarithms: recorded / restored values must be the actual ones
+        scheme["non_negative"] = [l for l in scheme["free"] if l.startswith("r.") and draw(st.booleans())] + [
+            f"{g}.{j+1}" for g in ("s", "ds") for j in range(len(scheme["parameters"].get(g, []))) if draw(st.booleans())]
         kind = draw(st.sampled_from(["raise_at", "raise_at", "nan_at", "inf_at"]))
-        return {"scheme": scheme, "method": draw(st.sampled_from(METHODS)), "max_nfev": draw(st.integers(2, 5)), "kind": kind,
+        method = draw(st.sampled_from(METHODS if kind == "raise_at" else [m for m in METHODS if m != "Dogbox"]))
+        return {"scheme": scheme, "method": method, "max_nfev": draw(st.integers(2, 5)), "kind": kind,
                 "k_frac": draw(st.floats(0, 1)), "verbose": draw(st.integers(0, 3)) == 0,
                 "raise_exception": draw(st.booleans()) if kind == "raise_at" else False}
 
@@ -343,5 +356,7 @@ PROPERTY = Property(
     assumptions=[
         "a 'model evaluation' is one calculate_matrix call of the faulting megacomplex (1 or 2 per objective evaluation)",
         "the log of the harness megacomplex defines which parameter vectors were evaluated without error",
+        "non-finite matrix faults are not injected under Dogbox: numpy.linalg.lstsq (LAPACK dgelsd) inside scipy's dogbox can loop forever on a "
+        "non-finite Jacobian (observed; outside pyglotaran, not interruptible from Python)",
     ],
 )
